@@ -126,6 +126,11 @@ class ProcessWorker(Worker):
                     self._result = self._comms.parent_end.get()
                 except queue.Empty:
                     break
+                except Exception:
+                    # the child was killed part-way through sending, or what it sent cannot be rebuilt
+                    # in this process: it is dead and has not reported anything more
+                    logger.debug('Could not receive a message from the dead child', exc_info=1)
+                    break
 
             if self._result is None:
                 self._result = (False, None)
